@@ -43,6 +43,15 @@ CHECKS = {
     "C11": dict(level="model_checking", tech="symbolic execution + z3 against a model state; file sources through I/O stubs",
                 text="Buffer source from an arbitrary position through every sequence of K operations (2 quick / 3 thorough) with unbounded arguments; raw/wav/stdin sources through every sequence of 3/5 reads.",
                 ref="§5 C11"),
+    "C12": dict(level="model_checking", tech="symbolic schedules: real worker threads under a baton scheduler, every scheduling decision and time-out forked through the engine within a pre-emption bound; z3 decides input-path feasibility",
+                text="TokenizerWorker + 1-2 recording observers on 3 (quick) / 5 (thorough) windows with symbolic activity; <=2 (3) pre-emptive switches, <=1 (2) spurious time-outs per worker: observers' logs == detections == split(); all threads end; no deadlock.",
+                ref="§5 C12-C14", note="Trusted: the cooperative scheduler as a model of CPython threads switching at queue operations and joins; exhaustive forking (not a closed-form argument) along the schedule dimension."),
+    "C13": dict(level="model_checking", tech="symbolic schedules as C12 with the real StreamSaverWorker (symbolic cache threshold), AudioEventsJoinerWorker, RegionSaverWorker over wave stubs",
+                text="Saved stream == blocks read (header, closed file), joined file == split_and_join_with_silence(), one correctly named file per detection, under every schedule within the bounds.",
+                ref="§5 C12-C14", note="Trusted: as C12, plus the wave/open write stubs (replays use real wav files)."),
+    "C14": dict(level="model_checking", tech="symbolic schedules as C12 with the main thread's stop_all() schedulable at every point",
+                text="After a stop at any point: all threads finished, observers' log == detections of split() on exactly the blocks read, saved wav closed and holding those blocks.",
+                ref="§5 C12-C14", note="Trusted: as C12."),
     "C16": dict(level="model_checking", tech="symbolic execution + z3 (QF_LIA + byte-segment normalisation): slice semantics for all integers n, a, b",
                 text="Real AudioRegion.__getitem__ and the seconds/milliseconds views for unbounded region length and bounds; time bounds as exact rationals.",
                 ref="§5 C16"),
